@@ -74,6 +74,9 @@ class Gen(object):
                 continue
             seen.add(k)
             out.append([None, k, self.attr_value()])
+        if d.chance(1, 25) and "lang" not in seen:
+            # an attribute whose NAME contains a colon on an HTML element (no namespace involved: the name is just 'xml:lang')
+            out.append([None, "xml:lang", d.pick(["en", "fr"])])
         if d.chance(1, 8):
             k = d.pick(BOOL_GLOBAL + BOOL_FOR.get(name, []))
             if k not in seen:
@@ -382,6 +385,9 @@ class Gen(object):
             body_kids = [self.comment()] + body_kids
         if d.chance(1, 6):
             body_kids = [T(d.pick([" ", "\n", "\n\n"]))] + body_kids if not (body_kids and body_kids[0][0] == "t") else body_kids
+        if d.chance(1, 12) and not (body_kids and body_kids[0][0] == "t"):
+            # text that begins with a character which is white space for Unicode but not for HTML, as the first thing in body
+            body_kids = [T(d.pick(["\xa0", "\u2003", "\u3000", "\x0b" if False else "\u2009"]) + d.pick(["hello", "x", " y"]))] + body_kids
         if d.chance(1, 14) and not (body_kids and body_kids[0][0] == "t"):
             # a LONG text node (more than 1024 characters) that begins with white space, as the first thing in body
             body_kids = [T(d.pick([" ", "\n", " \n"]) + d.pick(["long text ", "x", "\xe9 &amp; "]) * (110 + d.below(900)))] + body_kids
@@ -757,9 +763,15 @@ def check_optional_tags_equivalence(case):
     if obs.clarkify(obs.flat(tree)) != want:
         return Verdict("excluded", finding="generated tree not parsed back from the explicit writer (C01-class deviation)")
     res = {}
+    enc = case.get("encoding")      # with a narrow output encoding text arrives as character references in the re-parse
+    if enc and unencodable_nontext(doc, enc):
+        enc = None
     for omit in (False, True):
         s = HTMLSerializer(omit_optional_tags=omit, inject_meta_charset=False, quote_attr_values="always", minimize_boolean_attributes=False)
-        out = s.render(h5.walk(tree, walker))
+        if enc:
+            out = s.render(h5.walk(tree, walker), enc).decode(enc)
+        else:
+            out = s.render(h5.walk(tree, walker))
         r2, _ = h5.parse(out, builder="etree", full_tree=True)
         res[omit] = (out, obs.clarkify(obs.flat(r2)))
     feats, n_el = features(doc)
@@ -772,11 +784,34 @@ def check_optional_tags_equivalence(case):
                    % (d[0], short(d[1], 150), short(d[2], 150), short(res[True][0], 500)), "doc-parse-equivalence", nontrivial=True, sig=sig)
 
 
+def unencodable_nontext(doc, enc):
+    """comments / raw text / names that the codec cannot express (they cannot be written as references)"""
+    for n in walk_nodes(doc):
+        s = None
+        if n[0] == "c":
+            s = n[1]
+        elif n[0] == "e" and n[1] == HTML_NS and n[2] in RAWTEXT:
+            s = "".join(c[1] for c in n[4] if c[0] == "t")
+        if s:
+            try:
+                s.encode(enc)
+            except UnicodeEncodeError:
+                return True
+    for c in doc["pre"] + doc["post"]:
+        try:
+            c[1].encode(enc)
+        except UnicodeEncodeError:
+            return True
+    return False
+
+
 def run_optional_tags_docs(acc, n, seed):
     from vf.core import drive, short
 
     def fn(doc):
         case = {"kind": "doc", "doc": doc, "walker": "etree" if len(doc["html"][4][1][4]) % 2 else "dom"}
+        if len(writer(doc)) % 3 == 0:
+            case["encoding"] = "ascii"
         acc.add(case, check_optional_tags_equivalence(case), sample={"kind": "doc", "markup": short(writer(doc), 300)})
     drive(_doc_strategy(40), fn, n, seed)
 
